@@ -116,7 +116,7 @@ Qed.
 Lemma drn_nth_even b j : nth (2 * j) (drn b) 0 = if j <? length b then (if nth j b false then 0 else 1) else 0.
 Proof.
   revert j. induction b as [|x b IH]; intros j.
-  - simpl. destruct (2 * j); reflexivity.
+  - change (drn []) with (@nil nat). rewrite nth_overflow by (simpl; lia). reflexivity.
   - destruct j as [|j].
     + destruct x; reflexivity.
     + replace (2 * S j) with (S (S (2 * j))) by lia.
@@ -127,7 +127,7 @@ Qed.
 Lemma drn_nth_odd b j : nth (2 * j + 1) (drn b) 0 = if j <? length b then (if nth j b false then 1 else 0) else 0.
 Proof.
   revert j. induction b as [|x b IH]; intros j.
-  - simpl. destruct (2 * j + 1); reflexivity.
+  - change (drn []) with (@nil nat). rewrite nth_overflow by (simpl; lia). reflexivity.
   - destruct j as [|j].
     + destruct x; reflexivity.
     + replace (2 * S j + 1) with (S (S (2 * j + 1))) by lia.
@@ -365,9 +365,12 @@ Proof.
   destruct (add_her_total n 0 (hlookup h) st Hc) as [f Hf].
   assert (Lf := add_her_length _ _ _ _ _ Hf).
   exists f. split.
-  { unfold add_heralds_to_state. fold st. destruct h as [|x h'] eqn:Eh.
-    - exfalso. apply Hne. destruct her; [reflexivity|discriminate].
-    - rewrite <- Eh. replace (length st + length h) with n by lia. rewrite Eh. exact Hf. }
+  { assert (G : forall h0 : hdict, h0 <> [] ->
+                 add_heralds_to_state st h0 = add_her (length st + length h0) 0 (hlookup h0) st)
+      by (intros [|x h0] Hh0; [contradiction Hh0; reflexivity|reflexivity]).
+    fold st. rewrite G.
+    - replace (length st + length h) with n by lia. exact Hf.
+    - rewrite Eh0. destruct her; [contradiction Hne; reflexivity|discriminate]. }
   assert (Lz : length (znat f) = n) by (unfold znat; rewrite map_length; exact Lf).
   split; [lia|]. split; [|split].
   - intros kv Hkv.
@@ -396,8 +399,77 @@ Proof.
     unfold znat. rewrite (nth_indep _ 0 (Z.to_nat 0%Z)) by (rewrite map_length; lia).
     rewrite map_nth, G'. unfold st.
     assert (Hjv : j < length v).
-    { rewrite vis_length in Hj by assumption. unfold dkeys in Hj. lia. }
+    { rewrite vis_length in Hj by assumption. unfold dkeys in Hj. rewrite map_length in Hj. lia. }
     rewrite (nth_indep _ 0%Z (Z.of_nat 0)) by (rewrite map_length; exact Hjv).
     rewrite map_nth. apply Nat2Z.id.
   - intros i Hi. apply nth_overflow. lia.
+Qed.
+
+(* a definite full state *)
+Definition mkfull (n l : nat) (her : dict) (v : list nat) : list nat :=
+  match add_heralds_to_state (map Z.of_nat v) (hdz her) with
+  | Ok f => znat f ++ repeat 0 l
+  | Err _ => []
+  end.
+
+Lemma mkfull_full n l her v :
+  NoDup (dkeys her) -> (forall k, In k (dkeys her) -> k < n) -> length v + length her = n ->
+  full_st n l her v (mkfull n l her v).
+Proof.
+  intros H1 H2 H3. destruct (add_heralds_full n her v H1 H2 H3) as (f & E & F).
+  unfold mkfull. rewrite E. apply full_st_pad. exact F.
+Qed.
+
+(* ---- slices and splices ---- *)
+Lemma nth_slice {A} (l : list A) a k j d : j < k -> nth j (slice l a k) d = nth (a + j) l d.
+Proof. intros H. unfold slice. rewrite nth_firstn_lt by exact H. apply nth_skipn'. Qed.
+
+Lemma slice_length {A} (l : list A) a k : a + k <= length l -> length (slice l a k) = k.
+Proof. intros H. unfold slice. rewrite firstn_length, skipn_length. lia. Qed.
+
+Lemma splice_length {A} (l x : list A) a : a + length x <= length l -> length (splice l a x) = length l.
+Proof. intros H. unfold splice. rewrite !app_length, firstn_length, skipn_length. lia. Qed.
+
+Lemma nth_splice {A} (l x : list A) a i d : a + length x <= length l ->
+  nth i (splice l a x) d = if i <? a then nth i l d else if i <? a + length x then nth (i - a) x d else nth i l d.
+Proof.
+  intros H. unfold splice.
+  assert (La : length (firstn a l) = a) by (rewrite firstn_length; lia).
+  destruct (Nat.ltb_spec i a) as [Hi|Hi].
+  - rewrite app_nth1 by lia. apply nth_firstn_lt. exact Hi.
+  - rewrite app_nth2 by lia. rewrite La.
+    destruct (Nat.ltb_spec i (a + length x)) as [Hj|Hj].
+    + rewrite app_nth1 by lia. reflexivity.
+    + rewrite app_nth2 by lia. rewrite nth_skipn'. f_equal. lia.
+Qed.
+
+Lemma drn_firstn b q : drn (firstn q b) = firstn (2 * q) (drn b).
+Proof.
+  revert b. induction q as [|q IH]; intros b; [reflexivity|].
+  destruct b as [|x b]; [reflexivity|]. replace (2 * S q) with (S (S (2 * q))) by lia.
+  cbn [firstn]. change (drn (x :: firstn q b)) with ((if x then [0; 1] else [1; 0]) ++ drn (firstn q b)).
+  change (drn (x :: b)) with ((if x then [0; 1] else [1; 0]) ++ drn b). rewrite IH. destruct x; reflexivity.
+Qed.
+
+Lemma drn_skipn b q : drn (skipn q b) = skipn (2 * q) (drn b).
+Proof.
+  revert b. induction q as [|q IH]; intros b; [reflexivity|].
+  destruct b as [|x b]; [reflexivity|]. replace (2 * S q) with (S (S (2 * q))) by lia.
+  cbn [skipn]. change (drn (x :: b)) with ((if x then [0; 1] else [1; 0]) ++ drn b). rewrite IH. destruct x; reflexivity.
+Qed.
+
+Lemma drn_slice b q k : drn (slice b q k) = slice (drn b) (2 * q) (2 * k).
+Proof. unfold slice. rewrite drn_firstn, drn_skipn. reflexivity. Qed.
+
+Lemma drn_splice b q x : drn (splice b q x) = splice (drn b) (2 * q) (drn x).
+Proof.
+  unfold splice. rewrite !drn_app, drn_firstn, drn_skipn, drn_length. do 3 f_equal. lia.
+Qed.
+
+Lemma slice_splice {A} (l x : list A) a : a + length x <= length l -> slice (splice l a x) a (length x) = x.
+Proof.
+  intros H. unfold slice, splice.
+  assert (La : length (firstn a l) = a) by (rewrite firstn_length; lia).
+  rewrite skipn_app, La, Nat.sub_diag. rewrite (skipn_all2 (firstn a l)) by lia. cbn [skipn app].
+  rewrite firstn_app, Nat.sub_diag, firstn_all. cbn [firstn]. apply app_nil_r.
 Qed.
